@@ -187,7 +187,7 @@ func main() {
 			r := res[i]
 			ok := r.Status == "unsat"
 			if o.WantSat {
-				ok = r.Status != "unsat"
+				ok = r.Status != "unsat" || o.Dead
 			}
 			mark := "ok  "
 			if !ok {
